@@ -19,12 +19,14 @@ def label(kind, text):
     return '<label kind="%s">%s</label>' % (kind, esc(text))
 
 
-def location(lid, name=None, inv=None, rate=None, urgent=False, committed=False):
+def location(lid, name=None, inv=None, rate=None, urgent=False, committed=False, rate_first=False):
     s = '<location id="%s">' % lid
     if name is not None:
         s += "<name>%s</name>" % esc(name)
-    s += label("invariant", inv)
-    s += label("exponentialrate", rate)
+    if rate_first:
+        s += label("exponentialrate", rate) + label("invariant", inv)
+    else:
+        s += label("invariant", inv) + label("exponentialrate", rate)
     if urgent:
         s += "<urgent/>"
     if committed:
